@@ -29,6 +29,7 @@ type c27prod struct {
 	mu     sync.Mutex
 	next   int
 	fail   bool
+	failClose bool // the next underlying Close returns an error
 	events []string
 	// gate: when armed, the next underlying call (OpenDB / Close / Drop) logs its event, reports
 	// that it is inside the call and blocks until released.  Used by the PAR family to issue a
@@ -60,6 +61,13 @@ type c27store struct {
 
 func (s *c27store) Close() error {
 	s.p.enter("close:" + strconv.Itoa(s.uid))
+	s.p.mu.Lock()
+	f := s.p.failClose
+	s.p.failClose = false
+	s.p.mu.Unlock()
+	if f {
+		return errors.New("underlying close failed")
+	}
 	return nil
 }
 
@@ -127,7 +135,7 @@ func c27Run(in []string) []string {
 	// resolve the handle an op acts on (before the call is issued)
 	resolve := func(o []string) (kvdb.Store, bool) {
 		switch o[0] {
-		case "C", "D":
+		case "C", "D", "CE":
 			uid, ok := newest[o[1]]
 			if !ok {
 				return nil, false
@@ -168,13 +176,26 @@ func c27Run(in []string) []string {
 			}
 			uid := w.Store.(*c27store).uid
 			return c27call{res: "h" + strconv.Itoa(uid), h: st, uid: uid}
-		case "C", "CH":
+		case "C", "CH", "CE":
 			if !hok {
 				return c27call{res: "nohandle"}
 			}
-			if err := h.Close(); err != nil {
-				vu.Stat("overclose")
-				return c27call{res: "overclose"}
+			if o[0] == "CE" { // scripted: the underlying Close, if this call reaches it, fails
+				p.mu.Lock()
+				p.failClose = true
+				p.mu.Unlock()
+			}
+			err := h.Close()
+			p.mu.Lock()
+			p.failClose = false
+			p.mu.Unlock()
+			if err != nil {
+				if strings.Contains(err.Error(), "more times") {
+					vu.Stat("overclose")
+					return c27call{res: "overclose"}
+				}
+				vu.Stat("underlying_close_error")
+				return c27call{res: "closeerr"}
 			}
 			return c27call{res: "ok"}
 		case "D", "DH":
@@ -397,6 +418,39 @@ func init() {
 						}
 					}
 				}
+			}
+			// scripted underlying Close errors (CE): the wrapper releases the entry before calling the
+			// underlying Close and returns its error; afterwards the name is closed
+			ceAlpha := [][]string{{"O", "0"}, {"C", "0"}, {"CE", "0"}, {"D", "0"}, {"O", "1"}, {"CE", "1"}}
+			var cerec func(prefix []string, d int)
+			cerec = func(prefix []string, d int) {
+				if d == 0 {
+					return
+				}
+				for _, a := range ceAlpha {
+					q := append(append(append([]string{}, prefix...), ";"), a...)
+					hasCE := false
+					for _, t := range q {
+						if t == "CE" {
+							hasCE = true
+						}
+					}
+					if hasCE {
+						emit(q...)
+					}
+					cerec(q, d-1)
+				}
+			}
+			cerec([]string{"W"}, 4)
+			cerec([]string{"A"}, 4)
+			for i := 0; i < n/10; i++ {
+				c := []string{"W", "A"}[r.Intn(2)]
+				in := []string{c}
+				for j := 0; j < 3+r.Intn(15); j++ {
+					o := ceAlpha[r.Intn(len(ceAlpha))]
+					in = append(in, ";", o[0], o[1])
+				}
+				emit(in...)
 			}
 			// random histories with several overlaps
 			for i := 0; i < n/10; i++ {
